@@ -347,6 +347,21 @@ func Drive(id, tier string, seed uint64) int {
 				queue = queue[1:]
 				active++
 				qmu.Unlock()
+				// three confirmed crashes / hangs decide the run: what is still queued would only
+				// cost (every hanging unit waits for its watchdog) and is reported as not run
+				d.mu.Lock()
+				enough := len(d.crashes) >= 3
+				if enough {
+					d.incon["units not run after 3 confirmed crashes/hangs"] += int64(j.hi - j.lo)
+				}
+				d.mu.Unlock()
+				if enough {
+					qmu.Lock()
+					active--
+					qmu.Unlock()
+					cond.Broadcast()
+					continue
+				}
 				d.handle(j, push)
 				qmu.Lock()
 				active--
